@@ -12,3 +12,41 @@ package types
 //@   trusted
 //@   ensures result == addrOfKey(bytesval(pubKey))
 //@   modifies nothing
+
+// The 60-byte image of an account header (address || big-endian height || hash) as an abstract byte string: a function of
+// the three fields. (Fixed-width concatenation; its injectivity is not used.)
+//@ spec headerBytes(address arr, height int, hash arr) int
+
+//@ func AccountHeader.Bytes(abh)
+//@   trusted
+//@   requires abh != nil
+//@   ensures bytesval(result) == headerBytes(abh.Address, abh.Height, abh.Hash)
+//@   modifies nothing
+
+// ---- C05: the election orders pillars by (weight descending, name ascending) ---------------------------------------------
+//@ spec pdBefore(x *PillarDelegation, y *PillarDelegation) bool = val(x.Weight) > val(y.Weight) || (val(x.Weight) == val(y.Weight) && x.Name < y.Name)
+
+//@ func SortPDByWeight.Less(a, i, j)
+//@   requires 0 <= i && i < len(a) && 0 <= j && j < len(a) && a[i] != nil && a[j] != nil && a[i].Weight != nil && a[j].Weight != nil
+//@   ensures[order] result <==> pdBefore(a[i], a[j])
+//@   modifies nothing
+
+//@ func SortPDDByWeight.Less(a, i, j)
+//@   requires 0 <= i && i < len(a) && 0 <= j && j < len(a) && a[i] != nil && a[j] != nil && a[i].Weight != nil && a[j].Weight != nil
+//@   ensures[order] result <==> val(a[i].Weight) > val(a[j].Weight) || (val(a[i].Weight) == val(a[j].Weight) && a[i].Name < a[j].Name)
+//@   modifies nothing
+
+// Less is a strict total order on delegations with pairwise distinct names: the sorted list is unique.
+//@ lemma pd_strict_total_order
+//@   vars a SortPDByWeight, i int, j int, k int
+//@   assume 0 <= i && i < len(a) && 0 <= j && j < len(a) && 0 <= k && k < len(a)
+//@   assume a[i] != nil && a[j] != nil && a[k] != nil && a[i].Weight != nil && a[j].Weight != nil && a[k].Weight != nil
+//@   let ij = a.Less(i, j)
+//@   let ji = a.Less(j, i)
+//@   let jk = a.Less(j, k)
+//@   let ik = a.Less(i, k)
+//@   let ii = a.Less(i, i)
+//@   assert[irreflexive] !ii
+//@   assert[asymmetric] !(ij && ji)
+//@   assert[transitive] ij && jk ==> ik
+//@   assert[total] a[i].Name != a[j].Name ==> ij || ji
